@@ -56,8 +56,11 @@ SOLVE = {"la.solve", "np.linalg.solve", "scipy.linalg.solve", "linalg.solve"}
 INV = {"la.inv", "np.linalg.inv", "scipy.linalg.inv", "linalg.inv"}
 DOT = {"np.dot", "np.matmul"}
 UFUNC2 = {"np.add": "+", "np.subtract": "-", "np.multiply": "*", "np.divide": "/", "np.true_divide": "/"}
+OPERATOR2 = {"operator.add": "np.add", "operator.sub": "np.subtract", "operator.mul": "np.multiply", "operator.truediv": "np.divide",
+             "operator.matmul": "np.matmul"}
 IDENT_CALLS = {"np.asarray", "np.array", "np.atleast_1d", "np.atleast_2d", "np.ascontiguousarray", "np.asfortranarray"}
 IDENT_METHODS = {"ravel", "flatten", "copy", "squeeze"}
+LIST_METHODS = ("append", "extend", "insert", "pop", "clear", "remove", "sort", "reverse")
 
 
 class Arr:
@@ -98,6 +101,13 @@ class Lst:
 
     def __init__(self, loops):
         self.items, self.loops, self.fam, self.broken, self.comp = [], loops, None, None, None
+
+
+class BoundLst:
+    """`push = acc.append`"""
+
+    def __init__(self, lst, meth):
+        self.lst, self.meth = lst, meth
 
 
 class Closure:
@@ -217,33 +227,89 @@ def truth(v, atom):
     return None
 
 
+_CONNECTIVES = ("not", "bool:And", "bool:Or", "ite")
+
+
+def _set_len_items(x):
+    """`len({a, b, c})` -> [a, b, c]"""
+    ux = unfn(x) if is_rat(x) else None
+    if ux and ux[0] == "call:len" and len(ux[1]) == 1:
+        w = unfn(ux[1][0])
+        if w and w[0] == "set":
+            return list(w[1])
+    return None
+
+
 def equalities(v, want=True):
-    """pairs of values that are equal when the test value `v` has the truth value `want`"""
-    u = unfn(v) if is_rat(v) else None
-    if not u:
+    """pairs of values that are equal whenever the test value `v` has the truth value `want`.  The test is a propositional formula (not / and /
+    or / conditional values from flags set under nested tests) over elementary comparisons; an equality follows when it holds under every
+    assignment of the elementary tests that gives the formula the wanted value (truth table, at most 10 elementary tests).  So chains, De Morgan
+    forms, `any(...)` / `all(...)`, flags accumulated step by step (`ok = a == b; if ok: ok = b == c`) and `len({a, b, c}) == 1` all yield
+    the same pairs."""
+    if not is_rat(v):
         return []
-    name, args = u
-    if name == "not" and len(args) == 1:
-        return equalities(args[0], not want)
-    if (name == "bool:And" and want) or (name == "bool:Or" and not want):
-        return [p for a in args for p in equalities(a, want)]
-    if name == "ite" and len(args) == 3:
-        # a flag set under nested tests: `bad = True; if a == b: bad = b != c` is false only when a == b and b == c
-        c, a, b = args
-        la, lb = literal(a), literal(b)
-        if lb is not _NOLIT and bool(lb) != want:
-            return equalities(c, True) + equalities(a, want)
-        if la is not _NOLIT and bool(la) != want:
-            return equalities(c, False) + equalities(b, want)
+    atoms = []          # (key value, pairs that hold when the atom is true)
+
+    def atom_of(x):
+        """-> (index of the elementary test, polarity) or None for a literal"""
+        u = unfn(x)
+        neg = False
+        if u and u[0] in ("cmp:NotEq", "cmp:IsNot") and len(u[1]) == 2:
+            x, neg = F.fn("cmp:Eq" if u[0] == "cmp:NotEq" else "cmp:Is", *u[1]), True
+        for i, (k, _) in enumerate(atoms):
+            if same(k, x):
+                return i, neg
+        u = unfn(x)
+        pairs = []
+        if u and u[0] == "cmp:Eq" and len(u[1]) == 2:
+            pairs = [(u[1][0], u[1][1])]
+            for a, b in ((u[1][0], u[1][1]), (u[1][1], u[1][0])):
+                items = _set_len_items(a)
+                if items is not None and const_int(b) == 1:
+                    pairs = list(zip(items, items[1:]))          # len({a, b, c}) == 1: all the same
+        atoms.append((x, pairs))
+        return len(atoms) - 1, neg
+
+    def build(x):
+        """formula tree: ('lit', bool) / ('atom', i, negated) / (connective, children...)"""
+        lit = literal(x)
+        if lit is not _NOLIT:
+            return ("lit", bool(lit))
+        u = unfn(x)
+        if u and u[0] in _CONNECTIVES:
+            return (u[0],) + tuple(build(a) for a in u[1])
+        i, neg = atom_of(x)
+        return ("atom", i, neg)
+
+    def val(t, asg):
+        k = t[0]
+        if k == "lit":
+            return t[1]
+        if k == "atom":
+            return asg[t[1]] != t[2]
+        if k == "not":
+            return not val(t[1], asg)
+        if k == "bool:And":
+            return all(val(c, asg) for c in t[1:])
+        if k == "bool:Or":
+            return any(val(c, asg) for c in t[1:])
+        return val(t[2], asg) if val(t[1], asg) else val(t[3], asg)      # ite
+
+    tree = build(v)
+    n = len(atoms)
+    if n == 0 or n > 10:
         return []
-    if ((name == "cmp:Eq" and want) or (name == "cmp:NotEq" and not want)) and len(args) == 2:
-        for x, y in ((args[0], args[1]), (args[1], args[0])):
-            ux = unfn(x)
-            if const_int(y) == 1 and ux and ux[0] == "call:len" and unfn(ux[1][0]) and unfn(ux[1][0])[0] == "set":
-                items = unfn(ux[1][0])[1]                 # len({a, b, c}) == 1: all the same
-                return list(zip(items, items[1:]))
-        return [(args[0], args[1])]
-    return []
+    forced = [True] * n
+    sat = False
+    for bits in range(1 << n):
+        asg = [(bits >> i) & 1 == 1 for i in range(n)]
+        if val(tree, asg) == want:
+            sat = True
+            for i in range(n):
+                forced[i] = forced[i] and asg[i]
+    if not sat:
+        return []
+    return [p for i in range(n) if forced[i] for p in atoms[i][1]]
 
 
 def str_const(v):
@@ -915,6 +981,8 @@ class Interp(AutoEvaluator):
             root = d.split(".")[0]
             if root not in self.env and root not in self.consts:
                 return super()._ev(node)          # np.pi, math.pi, names of other modules: symbols
+        if isinstance(node.value, ast.Name) and isinstance(self.env.get(node.value.id), Lst) and node.attr in LIST_METHODS:
+            return BoundLst(self.env[node.value.id], node.attr)
         # the shape of a view is the view's, not that of what was stored into it
         view = isinstance(node.value, ast.Name) and node.attr in ("shape", "ndim", "T", "size")
         return self._attr_of(self._base(node.value) if view else self._ev(node.value), node.attr)
@@ -924,6 +992,9 @@ class Interp(AutoEvaluator):
             return base.fields.get(attr, Unknown(f"field {attr}"))
         if not is_rat(base):
             return base if is_unknown(base) else Unknown(f"attribute of {type(base).__name__}")
+        n_ = one_sym(base)
+        if n_ and n_.split(".")[0] in self.imports.values() | self.imports.keys() | {"np", "la", "ode", "cb", "math"} and n_.split(".")[0] not in self.env:
+            return F.sym(f"{n_}.{attr}")                # getattr(ode, "SolveUnc") is ode.SolveUnc
         if attr == "shape":
             return self.shape_value(base)
         if attr == "ndim":
@@ -951,6 +1022,13 @@ class Interp(AutoEvaluator):
                 if not is_rat(vals[0]):
                     raise Unsupported("range bound")
                 return ("sym", vals[0], lambda i: i)
+            if nm == "reversed" and len(it.args) == 1 and not it.keywords:
+                sp = self._iter_spec(it.args[0])
+                if sp[0] == "unroll":
+                    return ("unroll", list(reversed(sp[1])))
+                if isinstance(it.args[0], ast.Call) and dotted(it.args[0].func) in ("range", "np.arange"):
+                    return sp               # every index of the range once: the order of the passes is not modelled
+                raise Unsupported("reversed iteration over an array")
             if nm == "enumerate" and len(it.args) == 1 and not it.keywords:
                 sp = self._iter_spec(it.args[0])
                 if sp[0] == "unroll":
@@ -1045,6 +1123,8 @@ class Interp(AutoEvaluator):
             v = self.env.get(node.func.id)
             if v is None and node.func.id not in self.env and node.func.id not in self.userfuncs and node.func.id in self.consts:
                 v = self._const(node.func.id)           # a module-level alias: `_solve = la.solve`
+            if isinstance(v, BoundLst):
+                return self._lst_method(v.lst, v.meth, [self.ev(a) for a in node.args], {k.arg: None for k in node.keywords})
             if isinstance(v, Closure):
                 target = v
             elif node.func.id not in self.env and node.func.id in self.userfuncs:
@@ -1063,12 +1143,16 @@ class Interp(AutoEvaluator):
             target = self._lambda(node.func)
         elif isinstance(node.func, ast.Attribute) and isinstance(node.func.value, ast.Name) and isinstance(self.env.get(node.func.value.id), Lst):
             l = self.env[node.func.value.id]
-            if node.func.attr in ("append", "extend", "insert", "pop", "clear", "remove", "sort", "reverse"):
+            if node.func.attr in LIST_METHODS:
                 return self._lst_method(l, node.func.attr, [self.ev(a) for a in node.args], {k.arg: None for k in node.keywords})
         elif not isinstance(node.func, (ast.Name, ast.Attribute)):
             fv = self.ev(node.func)                             # {True: f, False: g}[test](), table[key](...)
             if isinstance(fv, Closure):
                 target = fv
+            elif one_sym(fv) in self.userfuncs:
+                target = Closure(self.userfuncs[one_sym(fv)], None)
+            elif one_sym(fv) and not one_sym(fv).startswith(("@", "%", "?", "'", '"')):
+                name = one_sym(fv)
         def arg(x):
             # a function of this module / a closure receives references: a view stays a view (it is read when the callee reads it)
             if target is None:
@@ -1202,6 +1286,27 @@ class Interp(AutoEvaluator):
             a_ = self._new_arr("copy", None, None, node, like=copied)
             a_.init = self._deref(copied)
             return a_.sym
+        if name in OPERATOR2 and len(pos) == 2 and not kws and all(is_rat(p_) for p_ in pos):
+            name, pos = OPERATOR2[name], pos
+            return self._model(name, None, pos, kws, node)
+        if name in ("operator.neg", "neg") and len(pos) == 1 and not kws and is_rat(pos[0]):
+            return -pos[0]
+        if name in ("operator.attrgetter", "attrgetter") and len(pos) == 1 and not kws and str_const(pos[0]) is not None and str_const(pos[0]).isidentifier():
+            return self._lambda(ast.parse(f"lambda _x: _x.{str_const(pos[0])}", mode="eval").body)
+        if name in ("functools.partial", "partial") and isinstance(node, ast.Call) and node.args and not any(isinstance(a, ast.Starred) for a in node.args) \
+                and all(k.arg for k in node.keywords):
+            # partial(f, a, k=v)(x, ...) is f(a, x, ..., k=v): a lambda over the written argument expressions (evaluated when called)
+            call = ast.Call(func=node.args[0], args=list(node.args[1:]) + [ast.Starred(value=ast.Name(id="_a", ctx=ast.Load()), ctx=ast.Load())],
+                            keywords=list(node.keywords) + [ast.keyword(arg=None, value=ast.Name(id="_k", ctx=ast.Load()))])
+            lam = ast.Lambda(args=ast.arguments(posonlyargs=[], args=[], vararg=ast.arg(arg="_a"), kwonlyargs=[], kw_defaults=[], kwarg=ast.arg(arg="_k"),
+                                                defaults=[]), body=call)
+            ast.copy_location(lam, node)
+            ast.fix_missing_locations(lam)
+            return self._lambda(lam)
+        if name in ("operator.itemgetter", "itemgetter") and pos and not kws and all(const_int(x) is not None or str_const(x) is not None for x in pos):
+            keys = [repr(const_int(x)) if const_int(x) is not None else repr(str_const(x)) for x in pos]
+            body = f"_x[{keys[0]}]" if len(keys) == 1 else "(" + ", ".join(f"_x[{k}]" for k in keys) + ",)"
+            return self._lambda(ast.parse(f"lambda _x: {body}", mode="eval").body)
         if name == "len" and len(pos) == 1 and not kws:
             return self.length(pos[0])
         if name == "getattr" and len(pos) == 2 and not kws and str_const(pos[1]) is not None:
@@ -1282,6 +1387,16 @@ class Interp(AutoEvaluator):
             return F.const(1) / pos[0]
         if name == "np.transpose" and len(pos) == 1 and not kws and is_rat(pos[0]):
             return F.fn("attr:T", pos[0])
+        if name == "np.rollaxis" and pos and is_rat(pos[0]) and self.ndim_of(pos[0]) is not None:
+            nd_ = self.ndim_of(pos[0])
+            ax = const_int(pos[1] if len(pos) > 1 else kws.get("axis"))
+            st_ = const_int(pos[2]) if len(pos) > 2 else (const_int(kws["start"]) if "start" in kws else 0)
+            if ax is not None and st_ is not None:
+                ax, st_ = ax % nd_, st_ % (nd_ + 1) if st_ < 0 else st_
+                dest = st_ - 1 if st_ > ax else st_
+                p = self._perm("np.moveaxis", [pos[0], F.const(ax), F.const(dest)], {})
+                if p is not None:
+                    return p
         if name in ("np.transpose", "np.moveaxis", "np.swapaxes") and pos and is_rat(pos[0]):
             p = self._perm(name, pos, kws)
             if p is not None:
@@ -1787,10 +1902,69 @@ class Interp(AutoEvaluator):
             dom = dom + F.const(1)
         return var, dom, st.body[:-1]
 
+    def _counted_down(self, st):
+        """`while i > 0: i -= 1; ...` (i starts at n) or `while i >= 0: ...; i -= 1` (i starts at n - 1): n passes, each index of range(n) once
+        -> (counter name, trip count value, body without the decrement, value of the counter afterwards) or None"""
+        t = st.test
+        if st.orelse or not (isinstance(t, ast.Compare) and len(t.ops) == 1) or len(st.body) < 1:
+            return None
+        v = self.ev(t)
+        u = unfn(v) if is_rat(v) else None
+        if not u or not u[0].startswith("cmp:") or len(u[1]) != 2:
+            return None
+        names = [x for x in (t.left, t.comparators[0]) if isinstance(x, ast.Name)]
+        if len(names) != 1 or not is_rat(self.env.get(names[0].id)):
+            return None
+        var, start = names[0].id, self.env[names[0].id]
+        # the test as `c < i` / `c <= i` / `i != c` on values (cmp_value normalises > and >=); the counter is the side that is its current value
+        op, (a, b) = u[0][4:], u[1]
+        lim = None
+        if op in ("Lt", "LtE") and same(b, start) and const_int(a) is not None:
+            lim = const_int(a) + (1 if op == "Lt" else 0)              # loop runs while i >= lim
+        elif op == "NotEq" and const_int(a if same(b, start) else b) is not None and (same(a, start) or same(b, start)):
+            lim = const_int(a if same(b, start) else b) + 1
+        if lim is None:
+            return None
+
+        def is_dec(x):
+            if isinstance(x, ast.AugAssign) and isinstance(x.op, ast.Sub) and isinstance(x.target, ast.Name) and x.target.id == var:
+                return isinstance(x.value, ast.Constant) and x.value.value == 1
+            return isinstance(x, ast.Assign) and len(x.targets) == 1 and isinstance(x.targets[0], ast.Name) and x.targets[0].id == var \
+                and isinstance(x.value, ast.BinOp) and isinstance(x.value.op, ast.Sub) and isinstance(x.value.left, ast.Name) and x.value.left.id == var \
+                and isinstance(x.value.right, ast.Constant) and x.value.right.value == 1
+
+        if is_dec(st.body[0]) and lim == 1:
+            body, dom, after = st.body[1:], start, F.const(0)          # indices n-1 .. 0
+        elif is_dec(st.body[-1]) and lim == 0:
+            body, dom, after = st.body[:-1], start + F.const(1), F.const(-1)
+        else:
+            return None
+        for s_ in body:
+            for n in ast.walk(s_):
+                if isinstance(n, ast.Name) and isinstance(n.ctx, ast.Store) and n.id == var:
+                    return None
+                if isinstance(n, (ast.Break, ast.Continue)):
+                    return None
+        return var, dom, body, after
+
     def _while(self, st):
         cl = self._counted(st)
         if cl is None:
-            raise Unsupported("while loop that is not a counted loop `i = 0; while i < n: ...; i += 1`")
+            cd = self._counted_down(st)
+            if cd is None:
+                raise Unsupported("while loop that is not a counted loop `i = 0; while i < n: ...; i += 1` (or its count-down twin)")
+            var, dom, body, after = cd
+            if const_int(dom) is not None:
+                raise Unsupported("count-down loop with a literal trip count")
+            lp = self._new_loop(dom, st)                                # every index of range(n) once: the order of the passes is not modelled
+            self.loop_stack.append(lp.id)
+            try:
+                self.env[var] = lp.sym
+                self._body(body, True)
+            finally:
+                self.loop_stack.pop()
+            self.env[var] = after
+            return
         var, dom, body = cl
         n = const_int(dom)
         if n is not None and 0 <= n <= MAX_UNROLL:
